@@ -625,3 +625,42 @@ func bseqString(ss []bseg) string {
 	}
 	return strings.Join(p, " ++ ")
 }
+
+// exactBytes: the byte slice v is exactly the bytes of want — the same value, or
+// a copy of all of it — with nothing added, cut or padded. decided=false if the
+// way v is built is not evaluated.
+func (d *deepView) exactBytes(v ssa.Value, fr *frame, want dval, depth int) (exact, decided bool) {
+	if depth > 6 {
+		return false, false
+	}
+	r := d.resolveConv(v, fr)
+	if w := d.resolveConv(want.v, want.fr); ir.StripConv(r.v) == ir.StripConv(want.v) || ir.StripConv(r.v) == ir.StripConv(w.v) && r.fr == w.fr {
+		return true, true
+	}
+	if ph, ok := r.v.(*ssa.Phi); ok {
+		all, dec := true, true
+		for _, e := range ph.Edges {
+			if e == ssa.Value(ph) || ir.IsNilConst(e) {
+				continue // the zero value of a variable assigned on the success path only
+			}
+			ex, de := d.exactBytes(e, r.fr, want, depth+1)
+			if de && !ex {
+				return false, true
+			}
+			all = all && ex
+			dec = dec && de
+		}
+		return all && dec, dec
+	}
+	segs, ok := d.byteSeq(r.v, r.fr, 0)
+	if !ok {
+		return false, false
+	}
+	if len(segs) == 1 && (segs[0].kind == "bytes") && segs[0].cut == nil && segs[0].boff == 0 && !segs[0].cond {
+		sv, w := d.resolveConv(segs[0].v.v, segs[0].v.fr), d.resolveConv(want.v, want.fr)
+		if ir.StripConv(sv.v) == ir.StripConv(want.v) || ir.StripConv(sv.v) == ir.StripConv(w.v) && sv.fr == w.fr {
+			return true, true
+		}
+	}
+	return false, true
+}
